@@ -599,6 +599,10 @@ pub fn gen_op(m: &Model, p: &Profile, seed: &OpSeed) -> Option<Op> {
                     chans.push(ch);
                 }
             }
+            if chans.len() == 1 && s.chance(12) {
+                chans.insert(0, ["#nosuch", "#c2", "&l0"][s.pick(3)].to_string());
+                chans.dedup();
+            }
             if s.chance(40) {
                 format!("PART {} :{}", chans.join(","), s.choose(TEXTS))
             } else {
@@ -657,7 +661,18 @@ pub fn gen_op(m: &Model, p: &Profile, seed: &OpSeed) -> Option<Op> {
                         others[s.pick(others.len())].clone()
                     }
                 }
-                8 => ["a.b", "#x", "a,b", "&y"][s.pick(4)].to_string(),
+                8 => {
+                    if s.chance(35) {
+                        // the own nick with the case of its first letter flipped (a different nick)
+                        let mut cs: Vec<char> = nick.chars().collect();
+                        if let Some(c0) = cs.get_mut(0) {
+                            *c0 = if c0.is_ascii_lowercase() { c0.to_ascii_uppercase() } else { c0.to_ascii_lowercase() };
+                        }
+                        cs.into_iter().collect()
+                    } else {
+                        ["a.b", "#x", "a,b", "&y", "#", "&", "a:b"][s.pick(7)].to_string()
+                    }
+                }
                 _ => {
                     // previously used (has a WHOWAS record) if any
                     let old: Vec<&String> = m.whowas.keys().filter(|n| !m.users.contains_key(*n)).collect();
